@@ -17,9 +17,18 @@ type ObsC02 struct {
 	// never policy: the IP an identity was bound with stays its IP until an administrator releases it or a reload drops it
 	lastIP   map[string]string
 	released map[string]bool
+	// filterGave: the reserved IP of its app that filter re-keyed to a deployment/pool pod (bind must use it)
+	filterGave map[string]string
 }
 
 func (o *ObsC02) AfterStep(x *Exec) *vcore.Failure { return nil }
+
+func firstOr(l []string) string {
+	if len(l) == 0 {
+		return ""
+	}
+	return l[0]
+}
 
 func poolPrefixOf(wl *WL) string {
 	if wl.Pool != "" {
@@ -73,6 +82,13 @@ func (o *ObsC02) AfterOp(x *Exec, i int, op Op, res *OpResult) *vcore.Failure {
 				if len(held) > 0 {
 					o.Sticky++
 				}
+				// the IP filter handed to the pod was taken away again before the bind (nobody may do that to a pod that exists):
+				// the bind then allocates a fresh IP although the app still holds reserved ones
+				if gave, ok := o.filterGave[p.UID]; ok && len(held) == 0 && len(p.Payload) == 1 && p.Payload[0] != gave &&
+					contains(res.BeforeBind.ByKey(poolPrefixOf(wl)), gave) && !x.everDropped(gave) {
+					return vcore.Failf("c02:dp_fresh_ip", "deployment/pool pod %s: filter gave it the reserved IP %s of its app, the IP was moved back to %q "+
+						"before the bind although the pod exists, and the pod was bound with the fresh IP %v", p.Name, gave, poolPrefixOf(wl), p.Payload)
+				}
 			}
 			return nil
 		}
@@ -81,6 +97,12 @@ func (o *ObsC02) AfterOp(x *Exec, i int, op Op, res *OpResult) *vcore.Failure {
 		own := res.Before.ByKey(p.Key)
 		if len(own) == 0 && len(reserved) > 0 && res.Err == nil && len(res.Nodes) > 0 || (len(own) == 0 && len(reserved) > 0 && res.BoundNow) {
 			now := res.After.ByKey(p.Key)
+			if b, ok := res.Before.Alloc[firstOr(now)]; len(now) == 1 && len(own) == 0 && ok && b.Key == prefix {
+				if o.filterGave == nil {
+					o.filterGave = map[string]string{}
+				}
+				o.filterGave[p.UID] = now[0]
+			}
 			if len(now) != 1 || !contains(reserved, now[0]) {
 				return vcore.Failf("c02:dp_fresh_ip", "deployment/pool pod %s: app holds reserved IPs %v under %q but filter gave it %v", p.Name,
 					reserved, prefix, now)
